@@ -225,7 +225,9 @@ impl Read for Dev {
         let avail = d.data.len().saturating_sub(pos);
         let want = buf.len().min(avail);
         let n = d.limit(want);
-        buf[..n].copy_from_slice(&d.data[pos..pos + n]);
+        if n > 0 {
+            buf[..n].copy_from_slice(&d.data[pos..pos + n]);
+        }
         if d.logging {
             let call = d.call;
             d.log.push(Op::Read {
